@@ -310,7 +310,19 @@ def _run_case(case, root, aux, offset):
                 et.ConfigProtectInstall().register(e)
         if case["op"] in ("uninstall", "replace"):
             mt.unmerge().register(e)
-            et.ConfigProtectUninstall().register(e)
+            if case["src"] == "extra":
+                # mirror the wiring of ebuild.triggers.generate_triggers: the configured CONFIG_PROTECT /
+                # CONFIG_PROTECT_MASK go to both triggers (a tree whose uninstall trigger takes no
+                # arguments gets none, as its own wiring would do)
+                prot = (case["protect"] or "").split()
+                mask = (case["mask"] or "").split()
+                try:
+                    un = et.ConfigProtectUninstall(prot, mask)
+                except TypeError:
+                    un = et.ConfigProtectUninstall()
+                un.register(e)
+            else:
+                et.ConfigProtectUninstall().register(e)
         phase = "sanity_check"
         e.sanity_check()
         if case["op"] in ("install", "replace"):
